@@ -4,6 +4,11 @@ import json, os, subprocess
 V = os.path.dirname(os.path.abspath(__file__))
 
 CHECKS = {
+ 'C12': dict(cat='model_checking', tech='complete enumeration of finite domains (date tuples over an octet alphabet, every integer below 2^16/2^24 and in boundary windows, every binary polynomial of degree <= 16) and of field x perturbation tables of every standard parameter set on the real validators against independent references',
+             text='tmDateIsValid2 on all 6-tuples over a 9- (thorough 15-) symbol octet alphabet, tmDateIsValid on every (y,m,d) of [1580,2105]x[0,13]x[0,32]; priIsPrimeW for EVERY n < 2^16 (2^24) and windows around 2^31, 2^32, 2^63, 2^64-1 and the Miller-Rabin base-set limits in both word sizes, Carmichael numbers < 10^10 (10^11), p(k(p-1)+1) families, strong pseudoprimes, products of standard primes/orders, multi-word Chernick numbers; '
+                  'priNextPrimeW/priNextPrime from every start < 2^16 and the last 2^12 values below 2^l; priIsSieved/priIsSmooth likewise; ppIsIrred/belsValM on all polynomials of degree <= 16 and structured degree-128/192/256 families; '
+                  '30 standard parameter sets (bign, bign96, g12s, stb99, dstu, pfok) validate and each field x 45-85 perturbations gets the reference verdict; public keys / key pairs at every boundary (off-curve, twist, x,y = p, p + x0, (0,0), d in {0,1,q-1,q,q+1}).',
+             note='trusted: ref/pri.py (sieve + deterministic Miller-Rabin), ref/polys.py, ref/dates.py, scheme references (vector-gated); priRMTest uses an internal generator: composites are asserted rejected only with >= 24 iterations', ref='4/C12'),
  'C13': dict(cat='model_checking', tech='complete enumeration of (length, key family, count, threshold, ordered subset) for counts 1..6 and a stated structured family for counts 7..16 on the real bels code against a spec-level GF(2)[x] reference',
              text='len {16,24,32} x key family {standard, belsGenMi from tapes, belsGenMid from identifiers} x count 1..6 (quick 1..5 + 6 with filler values) x threshold 1..count x secret {0,1,FF..,filler} x generator output {00..,FF..,filler} x EVERY ordered subset of every size: '
                   'each share = ((x^l + m0) k + s) mod mi from the reference with exactly (threshold-1) len tape octets consumed; recovery from >= threshold shares in any order = the secret; below threshold = the reference CRT value (and not the secret for filler values); '
